@@ -1,6 +1,7 @@
-(** C05, part 10: refutation witnesses (the literal clause 1 of the R05
-    monitor fires on the model's own observations) and non-vacuity
-    instances. *)
+(** C05, part 10: refutation witnesses (late-stamped retention - clauses 5
+    and 6 of the R05 monitor - is violated on the model's own observations;
+    both witnesses replay on the real implementation: corpus/C05) and
+    non-vacuity instances. *)
 From Coq Require Import List NArith ZArith Bool Arith Lia.
 From BBS Require Import Common.Sx Store.Model Store.Wf Store.WfTids Run.RStore Run.R01 Run.R05.
 From BBS Require Import Store.P05Cnt Store.P05Frame Store.P05Ops Store.P05Step Store.P05Surv Store.P05Mon Store.P05Inv Store.P05Main Store.P05Touch.
@@ -48,11 +49,11 @@ Example witnessA_wellformed :
 Proof. vm_compute. repeat split. Qed.
 Example witnessA_integrity : integ wA (init_state (w_cfg wA)) esA.
 Proof. vm_compute. repeat split. Qed.
-Example clause1_refuted_held_open_reader :
-  mon05 (enc_inp wA esA) (run_store (enc_inp wA esA)) = [1].
+Example clause5_refuted :
+  mon05 (enc_inp wA esA) (run_store (enc_inp wA esA)) = [5].
 Proof. vm_compute. reflexivity. Qed.
-Example witnessA_not_quiet_early_silent : quiet05 wA esA = false /\ mon05_early wA esA = [].
-Proof. vm_compute. split; reflexivity. Qed.
+Example witnessA_early_silent : mon05_early wA esA = [].
+Proof. vm_compute. reflexivity. Qed.
 (** the literal touch statement for Get is false: after the successful
     OGetConsume the object is under no lookup key *)
 Example get_consume_literal_refuted :
@@ -78,11 +79,11 @@ Example witnessB_wellformed :
 Proof. vm_compute. repeat split. Qed.
 Example witnessB_integrity : integ wB (init_state (w_cfg wB)) esB.
 Proof. vm_compute. repeat split. Qed.
-Example clause1_refuted_multi_digest_find_missing :
-  mon05 (enc_inp wB esB) (run_store (enc_inp wB esB)) = [1].
+Example clause6_refuted :
+  mon05 (enc_inp wB esB) (run_store (enc_inp wB esB)) = [6].
 Proof. vm_compute. reflexivity. Qed.
-Example witnessB_not_quiet_early_silent : quiet05 wB esB = false /\ mon05_early wB esB = [].
-Proof. vm_compute. split; reflexivity. Qed.
+Example witnessB_early_silent : mon05_early wB esB = [].
+Proof. vm_compute. reflexivity. Qed.
 (** the literal touch statement for multi-digest FindMissing is false: when
     the call returns, object 0 (reported present) is at an OLD location *)
 Example find_missing_multi_literal_refuted :
@@ -97,30 +98,32 @@ Proof. vm_compute. split; reflexivity. Qed.
     old=1.  Reader 9 of object 0 is opened and consumed through OGfcSlice
     (the monitor's table keeps the entry); object 0 is rotated out; a
     composite read of object 2 re-uses id 9 and is consumed by OGetConsume:
-    the R05 monitor books a touch of object 0 at that moment.  (The
-    early-stamping bookkeeping books it with the stamp of the first open,
-    which is a true statement about object 0, and stays silent.) *)
+    the R05 monitor books a touch of object 0: with the stamp of the first
+    open for clause 1 (a true statement about object 0: silent), with the
+    current stamp for clause 5 (reported). *)
 Definition wC : world := world_of (cfg 1 true).
 Definition esC : list op :=
   put 1 0 ++ [OGetOpen 9 0 0; OGfcSlice 9 []] ++ put 2 1 ++ put 3 2 ++
   [OGfcStart 9 2 0 2; OGetConsume 9; OGetOpen 10 0 0].
 Example reused_thread_id_confuses_monitor :
   wf_world wC = true /\ wf_tids esC = false /\
-  mon05 (enc_inp wC esC) (run_store (enc_inp wC esC)) = [1] /\ mon05_early wC esC = [].
+  mon05 (enc_inp wC esC) (run_store (enc_inp wC esC)) = [5] /\ mon05_early wC esC = [].
 Proof. vm_compute. repeat split. Qed.
 
-(** Non-vacuity: a quiet schedule with a refreshing single-digest
+(** Non-vacuity: a schedule with a refreshing single-digest
     FindMissing (object 1, stamp 4), a refreshing Get (object 2), and the
     loss of object 1 at push-back 7 = stamp + c_old + 1 (NOT_FOUND, rightly
-    not reported): all hypotheses of the partial theorem hold. *)
+    not reported): all hypotheses of the monitor theorem hold and the
+    monitor is silent. *)
 Definition esD : list op :=
   put 1 0 ++ put 2 1 ++ put 3 2 ++ [OFindMissing [(1, 0)]%nat] ++ [OGetOpen 9 2 0; OGetConsume 9] ++
   put 4 3 ++ put 5 4 ++ [OGetOpen 10 1 0; OGetOpen 11 2 0; OGetConsume 11].
-Example partial_theorem_non_vacuous :
-  wf_world wB = true /\ wf_ops wB [] esD = true /\ wf_tids esD = true /\ quiet05 wB esD = true /\
+Example monitor_theorem_non_vacuous :
+  wf_world wB = true /\ wf_ops wB [] esD = true /\ wf_tids esD = true /\
+  mon05 (enc_inp wB esD) (run_store (enc_inp wB esD)) = [] /\
   map (fun x => match snd (snd x) with Done c _ => c | Missing c _ => c | _ => (-9) end) (run_x wB esD)
   = [-9; -9; 0; -9; -9; 0; -9; -9; 0; 0; -9; 0; -9; -9; 0; -9; -9; 0; 5; -9; 0]
   /\ s_pushbacks (fst (run wB (init_state (w_cfg wB)) esD)) = 8%nat.
 Proof. vm_compute. repeat split. Qed.
-Example partial_theorem_non_vacuous_integ : integ wB (init_state (w_cfg wB)) esD.
+Example monitor_theorem_non_vacuous_integ : integ wB (init_state (w_cfg wB)) esD.
 Proof. vm_compute. repeat split. Qed.
